@@ -491,6 +491,7 @@ class Exec(CallsMixin, Interp):
                     self.assume_valid(nv)
                     self.env[n] = nv
         self.advance_alloc()
+        self.flush_ref_bounds()
 
     def coerce_declared_locals(self, body):
         names, _, _ = stored_names(body)
@@ -668,6 +669,18 @@ class Exec(CallsMixin, Interp):
             self.ghost_locals[idx + '_seq'] = src      # the iterated list, nameable in invariants
         self.ghost_locals[idx] = K.vint(0)
         self.check_inv(inv, ordinal, 'entry', st)
+        if isinstance(st.target, ast.Name) and st.target.id not in self.env and not enum:
+            # give the loop variable its kind already now, so that method calls on it inside the body are resolved to
+            # the right class when the body's effects are havocked (otherwise every method of that name counts)
+            ek = None
+            if tag == 'seq':
+                ek = src.kind.elem
+            elif tag == 'map:keys':
+                ek = src.kind.key
+            elif tag == 'map:values':
+                ek = src.kind.val
+            if ek is not None:
+                self.env[st.target.id] = self.p.fresh_value(ek, 'tgt!' + st.target.id)
         self.havoc_for_loop(st.body, inv)
         i = self.p.fresh('idx!' + idx, z3.IntSort())
         self.ghost_locals[idx] = K.vint(i)
